@@ -8,8 +8,13 @@ SimNet decides connect refusal and latency, delivery latency, fragmentation
 stalls (half-open connection).
 """
 import asyncio
+import contextvars
 
 import aiohttp
+
+# which simulated client (task tree) opens a connection: engines with several clients in one run set it inside the
+# client's own main task, so that connection attempts can be attributed
+CLIENT = contextvars.ContextVar("sim_client", default=None)
 
 
 class SimTransport(asyncio.Transport):
@@ -178,6 +183,7 @@ class SimNet:
 
     async def connect(self, client_proto, host):
         t0 = self.loop.time()
+        who = CLIENT.get()
         extra = 0.0
         dl = self.connect_delay.get(host)
         if dl:
@@ -185,21 +191,22 @@ class SimNet:
         await asyncio.sleep(self.latency() + extra)
         if self.refuse.get(host, 0) > 0:
             self.refuse[host] -= 1
-            self.attempts.append((t0, host, "refused"))
+            self.attempts.append((t0, host, "refused", who))
             raise aiohttp.ClientConnectionError(f"connection to {host} refused (simulated)")
         factory = self.servers.get(host)
         if factory is None:
-            self.attempts.append((t0, host, "no-such-host"))
+            self.attempts.append((t0, host, "no-such-host", who))
             raise aiohttp.ClientConnectionError(f"cannot resolve {host} (simulated)")
         sproto = factory()
         conn = Conn(self, len(self.conns) + 1, host)
+        conn.client = who
         ct = SimTransport(self.loop, client_proto, conn, "c")
         st = SimTransport(self.loop, sproto, conn, "s")
         ct.peer = st
         st.peer = ct
         conn.ct, conn.st = ct, st
         self.conns.append(conn)
-        self.attempts.append((t0, host, "connected"))
+        self.attempts.append((t0, host, "connected", who))
         sproto.connection_made(st)
         client_proto.connection_made(ct)
         return client_proto
